@@ -1,14 +1,14 @@
 //! Model of `psm::stack_pointer()`: the harness sets the value the "hardware" reports.
 #![allow(static_mut_refs)]
-static mut SP: usize = 0;
+static mut SP: (usize, u64) = (0, 0x5a5a_0011); // (tagged: see the note in the corosensei model)
 
 /// Model-only: set the stack pointer value returned by `stack_pointer`.
 pub fn verif_set_stack_pointer(sp: usize) {
-    unsafe { SP = sp }
+    unsafe { SP.0 = sp }
 }
 
 pub fn stack_pointer() -> *mut u8 {
-    unsafe { SP as *mut u8 }
+    unsafe { SP.0 as *mut u8 }
 }
 
 #[derive(Debug, Copy, Clone, PartialEq, Eq)]
